@@ -95,6 +95,9 @@ func c13alphabet() []c13op {
 	inv := func(id, j, y string) {
 		ops = append(ops, c13op{id: id, json: j, yaml: y, invalid: true})
 	}
+	// text that is not a document at all: a stray closing bracket between / after documents
+	inv("!stray-closing-brace", `}`, "}\n")
+	inv("!stray-closing-bracket", `]`, "]\n")
 	inv("!no-operation", `{"kind":"ConfigMap","namespace":"default","name":"cm"}`, "kind: ConfigMap\nnamespace: default\nname: cm\n")
 	inv("!unknown-operation", `{"operation":"Replace","kind":"ConfigMap","namespace":"default","name":"cm"}`, "operation: Replace\nkind: ConfigMap\nnamespace: default\nname: cm\n")
 	inv("!create-without-object", `{"operation":"Create"}`, "operation: Create\n")
